@@ -275,10 +275,18 @@ def r5_type_kept(ctx):
     C13.r6_scalar_literals(ctx)
 
 
+def r6_property_target(ctx):
+    """Property lines (!constant, !options, ...) that follow an assignment belong to the node that assignment defined
+    or modified - otherwise `!constant` after a modification protects another node (shared with C16.R8)."""
+    from . import C16 as _C16
+    _C16.r8_property_target(ctx)
+
+
 RULES = [
     ("C14.R1", "dispatch: constant => error before modification; existing path => modify in place; new path => append; untyped modification of an undefined node => error", r1_dispatch),
     ("C14.R2", "modification pipeline: type check, definition's caster, assignment unit attached then converted into the definition's unit (direction checked), unit-less taken as is", r2_pipeline),
     ("C14.R3", "no bare truth test on a value-carrying expression anywhere in the value path; wrappers have no __bool__/__len__", r3_none_vs_falsy),
     ("C14.R4", "single successful exit dominated by the validation loop, which rejects declared-but-undefined nodes; constant flag written = flag read", r4_final_checks),
+    ("C14.R6", "properties after a definition or modification attach to that node (shared with C16.R8)", r6_property_target),
     ("C14.R5", "every typed-value constructor carries the definition's unit, width and sign; scalar caster table", r5_type_kept),
 ]
